@@ -1,6 +1,16 @@
 /-
-  C08 — the disk cache's files.
-  (first part: CRC64 footer / header helpers shared with the C05 driver)
+  C08 — the disk cache's files: what the writers do to the directory, what a
+  process death leaves behind, and what a fresh `Storer` rebuilds and serves
+  from it.
+
+  * `FS`, `FsOp`, `FS.apply`       : directory image, file-level operations
+  * `fsOps : Disk → DOp → List FsOp` : the file operations of one writer step
+                                     (`RdbWriter`, `AofRotater`, `resetDataSet`,
+                                     `gcLogs`), in the order the code issues them
+  * `crashImages`                  : every prefix of an operation list, plus the
+                                     last append torn to every shorter length
+  * `reopen : FS → Reopened`       : `initDataSet` + `TruncateGap` (repaired, D15)
+  * `serve`                        : `GetReader(off, verifyCrc)` + reading to the end
 -/
 import GunYu.Basic.Bytes
 import GunYu.Gen.Crc64Table
@@ -8,6 +18,8 @@ import GunYu.Model.Store
 
 namespace GunYu.StoreFs
 open GunYu GunYu.Store
+
+/-! ### little-endian integers, CRC64, headers -/
 
 /-- little-endian bytes of `n` (`k` bytes) -/
 def leBytes : Nat → Nat → Bytes
@@ -30,5 +42,258 @@ def crc64 (bs : Bytes) : Nat := (bs.foldl crc64Step 0).toNat
 def rdbFooterOk (file : Bytes) : Bool :=
   if file.length ≤ 8 then true
   else ofLE (file.drop (file.length - 8)) == crc64 (file.take (file.length - 8))
+
+def headerSize : Nat := 16
+
+/-- `fixHeader`: version 1, everything else zero (a segment being written) -/
+def fixHeader : Bytes := 1 :: List.replicate 15 0
+
+/-- header written by `closeAof`: version(1) + crc64(8, LE) + data size(4, LE) + reserved(3) -/
+def closedHeader (data : Bytes) : Bytes :=
+  1 :: (leBytes 8 (crc64 data) ++ leBytes 4 (data.length % 4294967296) ++ [0, 0, 0])
+
+/-- `AofRotateReader.isCorrupted` on a file that is not being written -/
+def segVerifyOk (file : Bytes) : Bool :=
+  decide (headerSize ≤ file.length) &&
+  (ofLE ((file.drop 9).take 4) == file.length - headerSize) &&
+  (ofLE ((file.drop 1).take 8) == crc64 (file.drop headerSize))
+
+/-! ### directory images -/
+
+/-- File names of a cache directory, already classified the way `initDataSet`
+    classifies them: `<left>.aof`, `<left>_<size>.rdb`, `<left>_<size>.rdb.tmp`,
+    anything else. (Rendering to / parsing from the actual strings is done by the
+    driver and tied by the correspondence; `strconv.ParseInt` oddities such as a
+    leading `+` do not occur in names the writers produce.) -/
+inductive FName where
+  | aof (left : Nat)
+  | rdb (left size : Nat)
+  | rdbTmp (left size : Nat)
+  | other (s : String)
+deriving Repr, DecidableEq
+
+abbrev FS := List (FName × Bytes)
+
+def FS.get (fs : FS) (name : FName) : Option Bytes := (fs.find? (·.1 == name)).map (·.2)
+
+def FS.del (fs : FS) (name : FName) : FS := fs.filter (·.1 != name)
+
+def FS.set (fs : FS) (name : FName) (content : Bytes) : FS :=
+  if (fs.get name).isSome then fs.map (fun e => if e.1 == name then (name, content) else e)
+  else fs ++ [(name, content)]
+
+inductive FsOp where
+  | create (name : FName)                      -- open(O_CREATE|O_TRUNC)
+  | append (name : FName) (bs : Bytes)         -- write at the end
+  | pwriteHdr (name : FName) (hdr : Bytes)     -- seek(0) + write(header)
+  | rename (a b : FName)
+  | remove (name : FName)
+deriving Repr, DecidableEq
+
+def FS.apply (fs : FS) : FsOp → FS
+  | .create n => fs.set n []
+  | .append n bs =>
+    match fs.get n with
+    | some c => fs.set n (c ++ bs)
+    | none => fs
+  | .pwriteHdr n hdr =>
+    match fs.get n with
+    | some c => fs.set n (hdr ++ c.drop hdr.length)
+    | none => fs
+  | .rename a b =>
+    match fs.get a with
+    | some c => (fs.del a).set b c
+    | none => fs
+  | .remove n => fs.del n
+
+def FS.applyAll (fs : FS) (ops : List FsOp) : FS := ops.foldl FS.apply fs
+
+/-! ### file names -/
+
+def aofName (left : Nat) : FName := .aof left
+def rdbName (left size : Nat) : FName := .rdb left size
+def rdbTmpName (left size : Nat) : FName := .rdbTmp left size
+
+/-- the bytes of the name as the file system shows it (for the lexical order
+    of `filepath.Walk`) -/
+def FName.key : FName → Bytes
+  | .aof l => natToDec l ++ [46, 97, 111, 102]
+  | .rdb l s => natToDec l ++ [95] ++ natToDec s ++ [46, 114, 100, 98]
+  | .rdbTmp l s => natToDec l ++ [95] ++ natToDec s ++ [46, 114, 100, 98, 46, 116, 109, 112]
+  | .other s => s.toUTF8.toList
+
+/-- byte-wise lexical order (Go string comparison) -/
+def lexLt : Bytes → Bytes → Bool
+  | _, [] => false
+  | [], _ :: _ => true
+  | a :: as, b :: bs => if a < b then true else if b < a then false else lexLt as bs
+
+def parseAofName : FName → Option Nat
+  | .aof l => some l
+  | _ => none
+
+/-- `ParseRdbFile(name, false)`: only committed snapshots -/
+def parseRdbName : FName → Option (Nat × Nat)
+  | .rdb l s => some (l, s)
+  | _ => none
+
+/-! ### the writers' file operations -/
+
+def closeLiveOps (s : Disk) : List FsOp :=
+  match s.live with
+  | none => []
+  | some g =>
+    if g.data.isEmpty then [.remove (aofName g.left)]
+    else [.pwriteHdr (aofName g.left) (closedHeader g.data)]
+
+def rdbFileName (r : DRdb) : FName := if r.final then rdbName r.left r.size else rdbTmpName r.left r.size
+
+def insertName (x : FName) : List FName → List FName
+  | [] => [x]
+  | y :: rest => if lexLt x.key y.key then x :: y :: rest else y :: insertName x rest
+
+def sortNames (l : List FName) : List FName := l.foldr insertName []
+
+/-- file names of the index, in the lexical order `filepath.Walk` visits them -/
+def fileNames (s : Disk) : List FName :=
+  sortNames (s.all.map (fun g => aofName g.left) ++
+    (match s.rdb with
+     | some r => [rdbFileName r]
+     | none => []))
+
+/-- `resetDataSet`: close everything (the live segment gets its header or is
+    removed, a snapshot being written loses its temporary file), then remove
+    every remaining file in lexical order -/
+def resetOps (s : Disk) : List FsOp :=
+  let s1 := s.closeLive
+  let rdbClose : List FsOp := match s.rdb with
+    | some r => if r.writing then [.remove (rdbTmpName r.left r.size)] else []
+    | none => []
+  let s2 : Disk := match s.rdb with
+    | some r => if r.writing then { s1 with rdb := none } else s1
+    | none => s1
+  rdbClose ++ closeLiveOps s ++ (fileNames s2).map FsOp.remove
+
+/-- segments the collector removes, oldest first -/
+def gcRemoved (s : Disk) : List DSeg := s.segs.take (s.segs.length - s.gc.segs.length)
+
+def fsOps (s : Disk) : DOp → List FsOp
+  | .newRdbWriter off size => resetOps s ++ [.create (rdbTmpName off size)]
+  | .rdbAppend chunk =>
+    match s.rdb with
+    | some r =>
+      if r.writing then
+        [.append (rdbTmpName r.left r.size) chunk] ++
+          (if r.data.length + chunk.length = r.size then [.rename (rdbTmpName r.left r.size) (rdbName r.left r.size)] else [])
+      else []
+    | none => []
+  | .rdbClose =>
+    match s.rdb with
+    | some r => if r.writing then [.remove (rdbTmpName r.left r.size)] else []
+    | none => []
+  | .newAofWriter off =>
+    closeLiveOps s ++ [.create (aofName off), .append (aofName off) fixHeader]
+  | .aofAppend chunk =>
+    match s.live with
+    | none => []
+    | some g =>
+      let data := g.data ++ chunk
+      [.append (aofName g.left) chunk] ++
+        (if 16 + data.length > s.logSize then
+          [.pwriteHdr (aofName g.left) (closedHeader data),
+           .create (aofName (g.left + data.length)), .append (aofName (g.left + data.length)) fixHeader]
+         else [])
+  | .aofClose => closeLiveOps s
+  | .gc =>
+    (match s.rdb, s.gc.rdb with
+     | some r, none => [.remove (rdbName r.left r.size)]
+     | _, _ => []) ++ (gcRemoved s).map (fun g => FsOp.remove (aofName g.left))
+  | _ => []
+
+/-- all file operations of an operation list, with the state threaded through -/
+def scriptOps (s : Disk) : List DOp → List FsOp
+  | [] => []
+  | op :: rest => fsOps s op ++ scriptOps (s.step op).1 rest
+
+/-! ### process death -/
+
+/-- the last operation torn: an append that wrote only the first `k` bytes -/
+def tornLast (ops : List FsOp) (k : Nat) : List FsOp :=
+  match ops.getLast? with
+  | some (.append n bs) => ops.dropLast ++ [.append n (bs.take k)]
+  | _ => ops
+
+/-- the directory after the process died having issued `n` operations, the last
+    one (if an append) having written only `k` of its bytes -/
+def crashImage (fs : FS) (ops : List FsOp) (n k : Nat) : FS :=
+  fs.applyAll (tornLast (ops.take n) k)
+
+/-! ### re-opening (`NewStorer` + `SetRunId` → `initDataSet` + `TruncateGap`) -/
+
+structure Reopened where
+  rdb : Option (Nat × Nat)         -- (left, size) of the snapshot offered
+  segs : List DSeg                 -- indexed segments with their data (file content after the header)
+  removed : List FName             -- files `initDataSet` deletes
+deriving Repr
+
+/-- segments found by the directory walk: `.aof` files longer than the header -/
+def scanSegs (fs : FS) : List DSeg :=
+  fs.filterMap (fun e =>
+    match parseAofName e.1 with
+    | some l => if e.2.length > headerSize then some { left := l, data := e.2.drop headerSize } else none
+    | none => none)
+
+/-- the snapshot found by the walk: the last committed `.rdb` in lexical order -/
+def scanRdb (fs : FS) : Option (Nat × Nat) :=
+  ((sortNames (fs.map (·.1))).filterMap parseRdbName).getLast?
+
+def reopen (fs : FS) : Reopened :=
+  let segs := sortSegs (scanSegs fs)
+  let rdb0 := scanRdb fs
+  let run := contigRun segs
+  let cut := decide (run.length < segs.length)
+  let rdb1 := if cut then none else rdb0
+  let rdb2 := match rdb1, run with
+    | some (l, s), f :: _ => if l = f.left then some (l, s) else none
+    | r, _ => r
+  let removedSegs := (segs.take (segs.length - run.length)).map (fun g => aofName g.left)
+  let removedRdb := match rdb0, rdb2 with
+    | some (l, s), none => [rdbName l s]
+    | _, _ => []
+  { rdb := rdb2, segs := run, removed := removedRdb ++ removedSegs }
+
+/-- the `Disk` state a fresh `Storer` has after `SetRunId` on this directory -/
+def Reopened.toDisk (r : Reopened) (fs : FS) (logSize maxSize : Nat) (runId : String) : Disk :=
+  { logSize, maxSize, runId,
+    rdb := match r.rdb with
+      | some (l, s) => some { left := l, size := s, data := (fs.get (rdbName l s)).getD [], writing := false, final := true }
+      | none => none,
+    segs := r.segs, live := none, readers := [], hbase := 0, hist := [] }
+
+inductive ServeEnd where
+  | eof | corrupt | notExist
+deriving Repr, DecidableEq
+
+/-- follow the segments from `off` to the end: every file opened is verified
+    first when `verify` is on (nothing is being written after a restart) -/
+def serveFrom (fs : FS) (verify : Bool) : List DSeg → Nat → Bytes × ServeEnd
+  | [], _ => ([], .eof)
+  | g :: rest, off =>
+    match fs.get (aofName g.left) with
+    | none => ([], .notExist)
+    | some file =>
+      if verify && !segVerifyOk file then ([], .corrupt) else
+      let bs := g.data.drop (off - g.left)
+      let (more, e) := serveFrom fs verify rest g.right
+      (bs ++ more, e)
+
+/-- `GetReader(off, verify)` on the re-opened index, read to the end; `none`
+    when the offset is refused (`os.ErrNotExist`) or a snapshot reader is
+    returned instead -/
+def serve (fs : FS) (verify : Bool) (off : Nat) : Option (Bytes × ServeEnd) :=
+  let r := reopen fs
+  match indexAof r.segs off with
+  | none => none
+  | some g => some (serveFrom fs verify (r.segs.dropWhile (fun x => x.left != g.left)) off)
 
 end GunYu.StoreFs
